@@ -3,6 +3,8 @@ package main
 import (
 	"fmt"
 	"strings"
+	"sync"
+	"sync/atomic"
 
 	"github.com/spikeekips/mitum/base"
 	"github.com/spikeekips/mitum/launch"
@@ -142,6 +144,112 @@ func runC35(c *Ctx) error {
 		}
 	}
 	c.Extra("exhaustive_grid", true)
+	// reloads: ONE ACL and one importer, several sources one after the other (users come and go); every decision must
+	// follow from the table loaded last
+	nre := 150
+	if c.Thorough() {
+		nre = 3000
+	}
+	for i := 0; i < nre; i++ {
+		acl, err := launch.NewACL(9, super)
+		if err != nil {
+			return err
+		}
+		yacl := launch.NewYAMLACL(acl)
+		var loads []string
+		for t := 0; t < 2+c.Intn(3); t++ {
+			rd, ru, rv := rows[c.Intn(len(rows))], rows[c.Intn(len(rows))], rows[c.Intn(len(rows))]
+			if c.Chance(1, 2) { // one of the two users, so that they replace each other from load to load
+				if t%2 == 0 {
+					rv = nil
+				} else {
+					ru = nil
+				}
+			}
+			y := yamlRow("_default", rd) + yamlRow(userU, ru) + yamlRow(userV, rv)
+			if len(y) == 0 {
+				continue
+			}
+			if _, err := yacl.Import([]byte(y), enc); err != nil {
+				return fmt.Errorf("import %q: %w", y, err)
+			}
+			loads = append(loads, fmt.Sprintf("[%s | U %s | V %s]", rowTok(rd), rowTok(ru), rowTok(rv)))
+			for _, q := range []struct {
+				name string
+				r    *row
+			}{{userU, ru}, {userV, rv}} {
+				for si := 1; si <= 2; si++ {
+					for _, req := range requireds {
+						assigned, allow := acl.Allow(q.name, launch.ACLScope(scopeNames[si]), launch.ACLPerm(req))
+						// the same question asked of a table that holds only the default user and this user
+						line := fmt.Sprintf("allow %s %s %d %d %d", rowTok(rd), rowTok(q.r), 1, si, req)
+						c.Case(line, fmt.Sprintf("%d %s", assigned, b01(allow)))
+						c35Oracle(c, rd2(rd), rd2(q.r), 1, si, int(req), int(assigned), allow, "after the loads "+strings.Join(loads, " then ")+": "+line)
+					}
+				}
+			}
+		}
+		c.Count("reload-sequences", fmt.Sprint(len(loads)))
+	}
+	// a reload while decisions are asked for: every source prohibits the target user explicitly (the default user
+	// grants), so no decision may ever allow
+	{
+		target := base.NewMPrivatekey().Publickey().String()
+		fillers := make([]string, 300)
+		for i := range fillers {
+			fillers[i] = base.NewMPrivatekey().Publickey().String()
+		}
+		source := func(perm string) []byte {
+			var sb strings.Builder
+			sb.WriteString("_default:\n  s: oo\n")
+			for _, f := range fillers {
+				sb.WriteString(f + ":\n  s: " + perm + "\n")
+			}
+			sb.WriteString(target + ":\n  s: x\n")
+			return []byte(sb.String())
+		}
+		sources := [][]byte{source("o"), source("oo")}
+		acl, err := launch.NewACL(33, "")
+		if err != nil {
+			return err
+		}
+		yacl := launch.NewYAMLACL(acl)
+		if _, err := yacl.Import(sources[0], enc); err != nil {
+			return err
+		}
+		var stop, bad atomic.Bool
+		var asked atomic.Int64
+		var wg sync.WaitGroup
+		for g := 0; g < 4; g++ {
+			wg.Add(1)
+			go func() {
+				defer wg.Done()
+				for !stop.Load() {
+					if _, allow := acl.Allow(target, launch.ACLScope("s"), launch.ACLPerm(2)); allow {
+						bad.Store(true)
+					}
+					asked.Add(1)
+				}
+			}()
+		}
+		reloads := 60
+		if c.Thorough() {
+			reloads = 400
+		}
+		for i := 1; i <= reloads && !bad.Load(); i++ {
+			if _, err := yacl.Import(sources[i%2], enc); err != nil {
+				return err
+			}
+		}
+		stop.Store(true)
+		wg.Wait()
+		c.Eval(int(asked.Load()))
+		c.Count("concurrent-reload", "run")
+		if bad.Load() {
+			c.Violation("C35:decision-from-a-half-loaded-table", fmt.Sprintf("while the table is reloaded (%d users, every source prohibits the target user, the default user grants) a decision allowed the target user", len(fillers)+2),
+				map[string]interface{}{"users": len(fillers) + 2, "reloads": reloads})
+		}
+	}
 	return nil
 }
 
